@@ -85,6 +85,7 @@ package keystore
 //@   assert-at call useKeystore a-keystore-created-in-an-unlocked-wallet-is-unlocked-with-its-keys: arg1 == accountID && arg2 == privPassphrase && arg3
 //@ func (*KeystoreManagerForPoC).NewKeystore$1
 //@   assert-at call create stored-under-the-checked-passphrase: arg3 == privPassphrase
+//@   assert-at call create created-only-after-the-one-passphrase-rule-passed-locked-or-not: (forall k string :: !has(kmc.managedKeystores, k)) || !nothingChecked()
 
 // Unlock reports success only after the passphrase was verified for every keystore of the wallet (C03)
 //@ func (*KeystoreManagerForPoC).useKeystore
